@@ -96,6 +96,7 @@ structure CP where
   fault : Option String
   out : List Ev          -- events of the current op, newest first
   log : List Ev          -- ghost: every event so far, newest first
+  done : List Nat := []  -- ghost: request ids whose completion was consumed by the owner, newest first
 deriving Repr, DecidableEq
 
 instance : Inhabited CU := ⟨{ wfFree := [], smask := Mask.unl 0, vmasks := [], lmask := Mask.unl 0, nextSIMD := 0, resident := [] }⟩
@@ -210,8 +211,8 @@ def completeOne (cp : CP) (i : Nat) (id : Nat) : CP :=
   | none => cp
   | some (_, dl) =>
     let cp1 : CP := match free (cp.pool.getD dl.cu default) dl.key with
-      | some cu' => { cp with pool := cp.pool.set dl.cu cu' }
-      | none => { cp with fault := some "notfound" }
+      | some cu' => { cp with pool := cp.pool.set dl.cu cu', done := id :: cp.done }
+      | none => { cp with fault := some "notfound", done := id :: cp.done }
     let nc := d.nc + 1
     cp1.setDisp i { d with inflight := d.inflight.filter (·.1 ≠ id), nc := nc,
                            cycleLeft := if nc = d.alg.numWG then cp.cfg.ko else d.cycleLeft }
